@@ -217,7 +217,10 @@ fn predicates() -> Vec<(String, String)> {
         if t != Ty::Null && lt.is_multipart() != t.is_multipart() {
             out.push(("predicate:is_multipart".into(), format!("{}.is_multipart() = {}", t.name(), lt.is_multipart())));
         }
-        if format!("{}", lt) != t.name() {
+        // names are compared up to case and separators ("PolyLine", "Null Shape" are the
+        // whitepaper's own spellings; the statement asks for the table's names, not a casing)
+        let norm = |s: &str| s.chars().filter(|c| c.is_ascii_alphanumeric()).collect::<String>().to_ascii_lowercase();
+        if norm(&format!("{}", lt)) != norm(t.name()) {
             out.push(("display".into(), format!("{} displays as {:?}", t.name(), format!("{}", lt))));
         }
         if lt as i32 != t.code() {
